@@ -3371,4 +3371,253 @@ Proof.
 Qed.
 End RestoreInd.
 
+Lemma InvSV_extend (V V' : node -> Prop) s : InvSV V s ->
+  (forall nd i, nget nd (info s) = Some i -> V' nd -> ~ V nd -> node_inv (children s) (sliced s) nd i) ->
+  (forall nd, V nd \/ ~ V nd) ->
+  InvSV V' s.
+Proof.
+  intros (H1&H2&H3&H5) Hnew Hdec. unfold InvSV. split; [exact H1|]. split; [exact H2|]. split; [|exact H5].
+  intros nd i Hi. destruct (H3 nd i Hi) as [G Hv]. split; [exact G|]. intros HV'.
+  destruct (Hdec nd) as [HV|HnV]; [apply Hv, HV|apply (Hnew nd i Hi HV' HnV)].
+Qed.
+Lemma node_inv_children_ext ch ch' sl0 q i : nget q ch' = nget q ch -> node_inv ch sl0 q i -> node_inv ch' sl0 q i.
+Proof.
+  intros E (A&B&C&D). unfold node_inv, inv_spec, flops_spec in *. rewrite E. repeat split; assumption.
+Qed.
+Lemma contract_stats_id s : trk_flops s = true -> trk_write s = true -> trk_size s = true -> contract_stats n false s = s.
+Proof. intros E1 E2 E3. unfold contract_stats. rewrite E1, E2, E3. reflexivity. Qed.
+
+Definition Vof (P : list node) (nd : node) : Prop := length nd = 1 \/ In nd P.
+Lemma Vof_dec P nd : Vof P nd \/ ~ Vof P nd.
+Proof.
+  unfold Vof. destruct (Nat.eq_dec (length nd) 1) as [E|E]; [left; left; exact E|].
+  destruct (in_dec node_eq_dec nd P) as [H|H]; [left; right; exact H|right; intros [H1|H1]; contradiction].
+Qed.
+Lemma Vof_mono P p nd : Vof P nd -> Vof (p :: P) nd.
+Proof. intros [H|H]; [left; exact H|right; right; exact H]. Qed.
+
+(* phase A of restore_ind: the leaves whose term carries the index are reset *)
+Definition leafstep (ind : ix) (s : tstate) (i : nat) : tstate :=
+  let term := nth i (inputs n) [] in
+  if memb ind term then
+    let sa := remove_node n [i] s in
+    if forallb (fun j => negb (memb j (removed (sliced sa)))) term
+    then set_sliced_inputs (filter (fun k => negb (Nat.eqb k i)) (sliced_inputs sa)) sa
+    else sa
+  else s.
+Definition SameButLeaves (ind : ix) (L : list nat) (s s' : tstate) : Prop :=
+  children s' = children s /\ sliced s' = sliced s /\ mult s' = mult s /\
+  trk_flops s' = trk_flops s /\ trk_write s' = trk_write s /\ trk_size s' = trk_size s /\
+  flops_ s' = flops_ s /\ write_ s' = write_ s /\ sizes_ s' = sizes_ s /\ sizes_max s' = sizes_max s /\
+  nkeys (info s') = nkeys (info s) /\
+  (forall q, (exists k, q = [k] /\ In k L /\ In ind (nth k (inputs n) [])) ->
+             nget q (info s') = option_map (fun _ => noinfo) (nget q (info s))) /\
+  (forall q, ~ (exists k, q = [k] /\ In k L /\ In ind (nth k (inputs n) [])) -> nget q (info s') = nget q (info s)).
+Lemma leafstep_same ind s k : SameButLeaves ind [k] s (leafstep ind s k).
+Proof.
+  unfold leafstep. destruct (memb ind (nth k (inputs n) [])) eqn:Em.
+  2:{ unfold SameButLeaves. repeat split; try reflexivity.
+      intros q (k' & -> & [<-|[]] & Hin). apply memb_In in Hin. congruence. }
+  set (sa := remove_node n [k] s).
+  assert (Hsa : SameButLeaves ind [k] s sa).
+  { unfold sa, remove_node. cbn [length Nat.eqb hd]. unfold clear_info.
+    destruct (upd_info_fields [k] (fun _ => noinfo) s) as (F1&F2&F3&F4&F5&F6&F7&F8&F9&F10).
+    unfold SameButLeaves. cbn [set_preproc children sliced mult trk_flops trk_write trk_size flops_ write_ sizes_ sizes_max info].
+    repeat split; try assumption.
+    - apply nkeys_upd.
+    - intros q (k' & -> & [<-|[]] & _). apply nget_upd_same.
+    - intros q Hq. apply nget_upd_other. intros ->. apply Hq. exists k. split; [reflexivity|]. split; [left; reflexivity|apply memb_In, Em]. }
+  destruct (forallb _ _); [|exact Hsa].
+  unfold SameButLeaves in *. cbn [set_sliced_inputs children sliced mult trk_flops trk_write trk_size flops_ write_ sizes_ sizes_max info]. exact Hsa.
+Qed.
+Lemma NoDup_app_disjoint {A} (a b : list A) : NoDup (a ++ b) -> forall x, In x a -> In x b -> False.
+Proof.
+  induction a as [|y a IH]; cbn; intros ND x Ha Hb; [contradiction|]. inversion ND as [|? ? Hn ND']; subst.
+  destruct Ha as [->|Ha]; [apply Hn, in_app_iff; right; exact Hb|apply (IH ND' x Ha Hb)].
+Qed.
+Lemma SameButLeaves_trans ind L1 L2 s1 s2 s3 : NoDup (L1 ++ L2) ->
+  SameButLeaves ind L1 s1 s2 -> SameButLeaves ind L2 s2 s3 -> SameButLeaves ind (L1 ++ L2) s1 s3.
+Proof.
+  intros ND (A1&A2&A3&A4&A5&A6&A7&A8&A9&A10&A11&A12&A13) (B1&B2&B3&B4&B5&B6&B7&B8&B9&B10&B11&B12&B13).
+  unfold SameButLeaves. repeat split; try congruence.
+  - intros q (k & -> & Hk & Hin). apply in_app_iff in Hk. destruct Hk as [Hk|Hk].
+    + rewrite B13, A12; [reflexivity|exists k; auto|].
+      intros (k' & E & Hk' & _). injection E as <-. apply (NoDup_app_disjoint _ _ ND k Hk Hk').
+    + rewrite B12 by (exists k; auto). rewrite A13; [reflexivity|].
+      intros (k' & E & Hk' & _). injection E as <-. apply (NoDup_app_disjoint _ _ ND k Hk' Hk).
+  - intros q Hq. rewrite B13, A13; [reflexivity| |].
+    + intros (k & -> & Hk & Hin). apply Hq. exists k. split; [reflexivity|]. split; [apply in_app_iff; left; exact Hk|exact Hin].
+    + intros (k & -> & Hk & Hin). apply Hq. exists k. split; [reflexivity|]. split; [apply in_app_iff; right; exact Hk|exact Hin].
+Qed.
+
+Lemma leaf_fold_same ind L : forall s, NoDup L -> SameButLeaves ind L s (fold_left (leafstep ind) L s).
+Proof.
+  induction L as [|k L IH]; intros s ND; cbn [fold_left].
+  - unfold SameButLeaves. repeat split; try reflexivity. intros q (k & _ & [] & _).
+  - inversion ND as [|? ? Hn ND']; subst. apply (SameButLeaves_trans ind [k] L s (leafstep ind s k)); [exact ND|apply leafstep_same|apply IH, ND'].
+Qed.
+
+Section RestoreLoop.
+Variable sl sl' : list slinfo.
+Variable ind : ix.
+Hypothesis Hrem : forall j, In j (removed sl) <-> j = ind \/ In j (removed sl').
+Hypothesis Hfresh : ~ In ind (removed sl').
+Hypothesis Hinc : incl (output n) (concat (inputs n)).
+
+Definition full2 (i : ninfo) : Prop := i_legs i <> None /\ i_involved i <> None.
+(* loop invariant: P = the traversal nodes already handled *)
+Definition RInv (K0 : list node) (P : list node) (s : tstate) : Prop :=
+  InvCV (Vof P) s /\ Vclosed (Vof P) (children s) /\ sliced s = sl' /\
+  trk_flops s = true /\ trk_write s = true /\ trk_size s = true /\
+  (forall q, In q (nkeys (children s)) <-> In q K0) /\
+  (forall q, In q K0 -> nget q (info s) <> None) /\
+  (forall p l r, nget p (children s) = Some (l, r) -> ~ In p P -> nunion l r = p) /\
+  (forall nd i, nget nd (info s) = Some i -> length nd <> 1 -> ~ In nd P ->
+     node_inv (children s) sl nd i /\ full2 i /\ In nd K0).
+
+Definition loop_body (s : tstate) (plr : node * (node * node)) : tstate :=
+  let '(p, (l, r)) := plr in
+  let '(sa, ll) := g_legs n s l in
+  let '(sb, hit) := if lmem ind ll then (sa, true)
+                    else let '(sb, lr) := g_legs n sa r in (sb, lmem ind lr) in
+  if hit then contract_pair n l r None None None (remove_node n p sb) else sb.
+
+(* a getter call on a node of V keeps the loop invariant *)
+Lemma RInv_getter K0 P s c : RInv K0 P s -> Vof P c -> good_node c ->
+  RInv K0 P (fst (g_legs n s c)) /\ legs_ok n sl' c (snd (g_legs n s c)) /\
+  children (fst (g_legs n s c)) = children s.
+Proof.
+  intros ([HS HT] & HC & Esl & Tf & Tw & Ts & HK & HKi & HU & Hun) Vc Gc.
+  destruct (g_legs_invV (Vof P) s c HS HC Vc Gc) as (A & B & C).
+  destruct (g_legs_frame (Vof P) s c HC Vc) as [Ech Fr].
+  set (sa := fst (g_legs n s c)) in *.
+  assert (B' := B). destruct B' as (_&E2&_&E4&E5&E6&_&_&_&_&_&Ek&_).
+  split; [|split; [rewrite <- Esl; exact C|exact Ech]].
+  split; [split; [exact A|apply (totals_Ext s); assumption]|].
+  split; [rewrite Ech; exact HC|]. split; [congruence|]. split; [congruence|]. split; [congruence|]. split; [congruence|].
+  split; [rewrite Ech; exact HK|]. split.
+  - intros q Hq. apply nget_in_keys. unfold nkeys in *. rewrite Ek. apply nget_in_keys, HKi, Hq.
+  - split; [rewrite Ech; exact HU|]. intros nd i Hi Hl HnP. rewrite Ech. apply Hun; [|exact Hl|exact HnP].
+    rewrite <- Fr; [exact Hi|]. intros [H|H]; contradiction.
+Qed.
+
+Lemma Vclosed_Vof_leaf P ch : (forall p l r, nget p ch = Some (l, r) -> Vof P p -> Vof P l /\ Vof P r) -> Vclosed (Vof P) ch.
+Proof. intros H. split; [exact H|]. intros nd k _ _. left. reflexivity. Qed.
+
+Lemma RInv_step K0 P s p l r : RInv K0 P s -> nget p (children s) = Some (l, r) -> ~ In p P ->
+  Vof P l -> Vof P r -> In p K0 ->
+  RInv K0 (p :: P) (loop_body s (p, (l, r))) /\
+  (forall q, q <> p -> nget q (children (loop_body s (p, (l, r)))) = nget q (children s)).
+Proof.
+  intros HR Ech HnP Vl Vr HpK.
+  assert (HR0 := HR). destruct HR0 as ([HS0 _] & _).
+  destruct (proj2 (proj1 HS0) p l r Ech) as (Gl & Gr & HRlr & HPp).
+  assert (Gp : good_node p).
+  { split; [apply (perm_inrange _ _ HPp HRlr)|]. intros ->. apply Permutation_nil in HPp. destruct Gl as [_ Hl]. destruct l; [congruence|discriminate]. }
+  assert (Ll : length l <> N /\ length r <> N).
+  { pose proof (Permutation_length HPp) as HL. rewrite app_length in HL. pose proof (good_len p Gp). pose proof (good_len l Gl). pose proof (good_len r Gr). lia. }
+  unfold loop_body.
+  destruct (RInv_getter K0 P s l HR Vl Gl) as (R1 & L1 & C1).
+  destruct (g_legs n s l) as [sa ll]. cbn [fst snd] in R1, L1, C1.
+  apply legs_ok_nonroot in L1; [|apply Ll].
+  (* the state after the (one or two) getter calls, and whether the index was seen *)
+  assert (Hmid : exists sb hit,
+            (if lmem ind ll then (sa, true) else let '(sb, lr) := g_legs n sa r in (sb, lmem ind lr)) = (sb, hit) /\
+            RInv K0 P sb /\ children sb = children s /\
+            (hit = false -> exists lr, slegs_ok n sl' r lr /\ lmem ind ll = false /\ lmem ind lr = false)).
+  { destruct (lmem ind ll) eqn:El.
+    - exists sa, true. split; [reflexivity|]. split; [exact R1|]. split; [exact C1|discriminate].
+    - destruct (RInv_getter K0 P sa r R1 Vr Gr) as (R2 & L2 & C2).
+      destruct (g_legs n sa r) as [sb lr]. cbn [fst snd] in R2, L2, C2.
+      exists sb, (lmem ind lr). split; [reflexivity|]. split; [exact R2|]. split; [congruence|].
+      intros Eh. exists lr. split; [apply legs_ok_nonroot in L2; [exact L2|apply Ll]|]. split; [reflexivity|exact Eh]. }
+  destruct Hmid as (sb & hit & Emid & RB & Cb & Hnohit). rewrite Emid. clear Emid.
+  destruct RB as ([HSb HTb] & HCb & Eslb & Tfb & Twb & Tsb & HKb & HKib & HUb & Hunb).
+  assert (Echb : nget p (children sb) = Some (l, r)) by (rewrite Cb; exact Ech).
+  assert (Hpi : nget p (info sb) <> None) by (apply HKib, HpK).
+  assert (E1p : length p <> 1) by (apply (leaf_not_parent _ p l r (proj1 HSb) Echb)).
+  destruct hit.
+  - (* the node is removed and re-created from its (valid) children *)
+    assert (Hink : In p (nkeys (children sb))) by (apply nget_in_keys; congruence).
+    destruct (remove_node_internal_invV (Vof P) p sb (conj HSb HTb) Hink Hpi) as ([HSr HTr] & EchR & EslR & FrR & HpR & TfR & TwR & TsR).
+    set (sR := remove_node n p sb) in *.
+    assert (NDk : NoDup (nkeys (children sb))) by apply HSb.
+    assert (HSr' : InvSV (Vof (p :: P)) sR).
+    { apply (InvSV_extend (Vof P)); [exact HSr| |apply Vof_dec].
+      intros nd i Hi [Hl|[<-|Hin]] HnV; [exfalso; apply HnV; left; exact Hl| |exfalso; apply HnV; right; exact Hin].
+      destruct HpR as [E|E]; rewrite E in Hi; [discriminate|]. injection Hi as <-. apply node_inv_noinfo. }
+    assert (HCr : Vclosed (Vof (p :: P)) (children sR)).
+    { apply Vclosed_Vof_leaf. intros q l' r' Hq Vq. rewrite EchR in Hq.
+      destruct (node_eq_dec q p) as [->|Hn]; [rewrite nget_ndel_same in Hq by exact NDk; discriminate|].
+      rewrite nget_ndel_other in Hq by exact Hn.
+      assert (Vq' : Vof P q) by (destruct Vq as [H|[H|H]]; [left; exact H|congruence|right; exact H]).
+      destruct (proj1 HCb q l' r' Hq Vq') as [A B]. split; apply Vof_mono; assumption. }
+    assert (EU : nunion l r = p) by (apply (HUb p l r Echb HnP)).
+    assert (Hnone : nget (nunion l r) (children sR) = None) by (rewrite EU, EchR; apply nget_ndel_same, NDk).
+    assert (Vp' : Vof (p :: P) (nunion l r)) by (rewrite EU; right; left; reflexivity).
+    destruct (contract_pair_invV (Vof (p :: P)) l r sR (conj HSr' HTr) HCr Gl Gr HRlr Hnone (Vof_mono P p l Vl) (Vof_mono P p r Vr) Vp')
+      as ([HSf HTf] & EchF & EslF & TfF & TwF & TsF & EkF).
+    pose proof (contract_pair_frame (Vof (p :: P)) l r sR HCr (Vof_mono P p l Vl) (Vof_mono P p r Vr) Vp') as FrF.
+    set (sF := contract_pair n l r None None None sR) in *. rewrite EU in EchF.
+    assert (Hch_other : forall q, q <> p -> nget q (children sF) = nget q (children s)).
+    { intros q Hq. rewrite EchF, nget_nset_other by exact Hq. rewrite EchR, nget_ndel_other by exact Hq. rewrite Cb. reflexivity. }
+    split; [|exact Hch_other].
+    assert (Hlr' : order_pair l r = (l, r) \/ order_pair l r = (r, l)).
+    { unfold order_pair. destruct (if Nat.eqb (length l) (length r) then _ else _); auto. }
+    unfold RInv. split; [split; assumption|]. split.
+    { apply Vclosed_Vof_leaf. intros q l' r' Hq Vq. destruct (node_eq_dec q p) as [->|Hn].
+      - rewrite EchF, nget_nset_same in Hq.
+        destruct Hlr' as [E|E]; rewrite E in Hq; injection Hq as <- <-; split; apply Vof_mono; assumption.
+      - rewrite Hch_other in Hq by exact Hn. rewrite <- Cb in Hq.
+        assert (Vq' : Vof P q) by (destruct Vq as [H|[H|H]]; [left; exact H|congruence|right; exact H]).
+        destruct (proj1 HCb q l' r' Hq Vq') as [A B]. split; apply Vof_mono; assumption. }
+    split; [congruence|]. split; [congruence|]. split; [congruence|]. split; [congruence|]. split.
+    { intros q. rewrite <- HKb, <- !nget_in_keys. destruct (node_eq_dec q p) as [->|Hn].
+      - rewrite EchF, nget_nset_same, Echb. split; discriminate.
+      - rewrite Hch_other by exact Hn. rewrite Cb. tauto. }
+    split.
+    { intros q Hq. apply nget_in_keys. unfold nkeys in *. rewrite EkF.
+      assert (Gn : good_node (nunion l r)) by (rewrite EU; exact Gp).
+      destruct (add_node_invV (Vof (p :: P)) l sR (conj HSr' HTr) Gl) as (I1 & _ & _ & _ & M1).
+      destruct (add_node_invV (Vof (p :: P)) r _ I1 Gr) as (I2 & _ & _ & _ & M2).
+      destruct (add_node_invV (Vof (p :: P)) (nunion l r) _ I2 Gn) as (_ & _ & _ & K3 & M3).
+      apply nget_in_keys. destruct (node_eq_dec q p) as [->|Hn]; [rewrite <- EU; exact K3|].
+      assert (Hq0 : nget q (info sR) <> None) by (rewrite FrR by exact Hn; apply HKib, Hq).
+      assert (Hq1 : nget q (info (add_node l sR)) <> None) by (rewrite M1; assumption).
+      assert (Hq2 : nget q (info (add_node r (add_node l sR))) <> None) by (rewrite M2; assumption).
+      rewrite M3; assumption. }
+    split.
+    { intros q l' r' Hq Hnq. assert (Hn : q <> p) by (intros ->; apply Hnq; left; reflexivity).
+      rewrite Hch_other in Hq by exact Hn. rewrite <- Cb in Hq. apply (HUb q l' r' Hq). intros H. apply Hnq. right. exact H. }
+    intros nd i Hi Hl Hnd.
+    assert (Hn : nd <> p) by (intros ->; apply Hnd; left; reflexivity).
+    assert (HnP' : ~ In nd P) by (intros H; apply Hnd; right; exact H).
+    assert (HnV : ~ Vof (p :: P) nd) by (intros [H|H]; contradiction).
+    rewrite (FrF nd HnV), (FrR nd Hn) in Hi.
+    destruct (Hunb nd i Hi Hl HnP') as (A & B & C). split; [|split; assumption].
+    apply (node_inv_children_ext (children sb)); [|exact A]. rewrite Hch_other by exact Hn. rewrite Cb. reflexivity.
+  - (* unaffected: the old caches are right for the new sliced set *)
+    destruct (Hnohit eq_refl) as (lr & L2 & El & Er).
+    split; [|intros q _; rewrite Cb; reflexivity].
+    destruct (nget p (info sb)) as [i|] eqn:Ei; [|congruence].
+    destruct (Hunb p i Ei E1p HnP) as (Hold & [Fl Fi] & _).
+    destruct (i_legs i) as [lg|] eqn:Elg; [|congruence]. destruct (i_involved i) as [inv|] eqn:Einv; [|congruence].
+    assert (Hnew : node_inv (children sb) sl' p i).
+    { apply (unaffected_node sl sl' ind Hrem Hfresh Hinc (children sb) p i l r ll lr lg inv); try assumption. apply HSb. }
+    unfold RInv. split.
+    { split; [|exact HTb]. apply (InvSV_extend (Vof P)); [exact HSb| |apply Vof_dec].
+      intros nd j Hj [Hl|[<-|Hin]] HnV; [exfalso; apply HnV; left; exact Hl| |exfalso; apply HnV; right; exact Hin].
+      rewrite Ei in Hj. injection Hj as <-. rewrite Eslb. exact Hnew. }
+    split.
+    { apply Vclosed_Vof_leaf. intros q l' r' Hq Vq. destruct (node_eq_dec q p) as [->|Hn].
+      - rewrite Echb in Hq. injection Hq as <- <-. split; apply Vof_mono; assumption.
+      - assert (Vq' : Vof P q) by (destruct Vq as [H|[H|H]]; [left; exact H|congruence|right; exact H]).
+        destruct (proj1 HCb q l' r' Hq Vq') as [A B]. split; apply Vof_mono; assumption. }
+    split; [exact Eslb|]. split; [exact Tfb|]. split; [exact Twb|]. split; [exact Tsb|]. split; [exact HKb|]. split; [exact HKib|].
+    split.
+    { intros q l' r' Hq Hnq. apply (HUb q l' r' Hq). intros H. apply Hnq. right. exact H. }
+    intros nd j Hj Hl Hnd. apply (Hunb nd j Hj Hl). intros H. apply Hnd. right. exact H.
+Qed.
+End RestoreLoop.
+
 End Inv.
